@@ -24,6 +24,9 @@ from ..y0util import V, snapshot, to_y0
 
 TITLE = "Surrogate-outcome / transport (TRSO) estimands equal the target effect"
 POPS = ["π1", "π2"]
+# which sub-derivation of a set-valued loop fails first depends on set iteration order: the totality slice ("wyt") is
+# repeated in fresh interpreters under other hash seeds (the other slices run under the first seed only)
+HASH_SEEDS = {"quick": [0, 1], "thorough": [0, 1, 2]}
 
 
 def domain_specs(nodes):
@@ -52,12 +55,18 @@ def _cases(tier):
             items.append((g, (0,)))  # no source domain: lines 8-10 on four-node graphs
         for g in enum_O(4, max_edges=5):
             items.append((g, "wy2"))  # two source domains, each experimenting on one of the target interventions
+        for g in enum_O(4, max_edges=6):
+            if len(g.di) + len(g.bi) >= 5:
+                items.append((g, "wyt"))  # as "wy", outcome kind / side effects only (no numeric evaluation)
     else:
         for n in (2, 3):
             for g in enum_L(n):
                 items.append((g, (0, 1, 2)))
         for g in enum_O(4, max_edges=4):
             items.append((g, (0, 1)))
+        for g in enum_O(4):
+            if len(g.di) + len(g.bi) >= 5:
+                items.append((g, "wyt"))
     return items
 
 
@@ -77,9 +86,12 @@ def describe(tier):
             "O(2), O(3) name-ordered ADMGs with K<=1 source domains (all 19 (Z,W) specs per domain at n=3); "
             "O(3, <=3 edges) with K=2 (all ordered pairs of specs); O(4, <=4 edges) with one source domain whose surrogate "
             "outcomes are the target outcomes and whose experiment is a single node; O(4, <=5 edges) with no source domain and with two source domains that each "
-            "experiment on one of the target interventions and observe the target outcomes"
+            "experiment on one of the target interventions and observe the target outcomes; O(4, 5..6 edges) with one such source "
+            "domain checked for the kind of outcome and side effects only, repeated under PYTHONHASHSEED " + str(HASH_SEEDS[tier])
             if tier == "quick"
-            else "L(2), L(3) all labelled ADMGs with K<=2 (all ordered pairs of domain specs); O(4, <=4 edges) with K<=1"
+            else "L(2), L(3) all labelled ADMGs with K<=2 (all ordered pairs of domain specs); O(4, <=4 edges) with K<=1; O(4, >=5 "
+            "edges) with one source domain (surrogate outcomes = target outcomes, one experiment node) checked for the kind of "
+            "outcome and side effects only, repeated under PYTHONHASHSEED " + str(HASH_SEEDS[tier])
         )
         + "; every disjoint non-empty X, Y; binary witness + one ternary-node witness; every value assignment",
         "rule": "state = (graph, X, Y, [(Z_i, W_i)]); transition = one identify_target_outcomes call whose estimand is "
@@ -112,7 +124,7 @@ def arg_set(names):
     return ARG_SETS[k]
 
 
-def check_case(res: Res, g: G, yg, x, y, doms, models_star, case):
+def check_case(res: Res, g: G, yg, x, y, doms, models_star, case, total_only=False):
     from y0.algorithm.transport import identify_target_outcomes, surrogate_to_transport
     from y0.dsl import Expression, Variable
 
@@ -164,6 +176,8 @@ def check_case(res: Res, g: G, yg, x, y, doms, models_star, case):
         res.outcomes["none"] += 1
         return
     res.outcomes["estimand"] += 1
+    if total_only:
+        return
     # transport marks from y0's own diagrams, united with the published construction
     tq = surrogate_to_transport(
         graph=yg,
@@ -216,12 +230,14 @@ def check_case(res: Res, g: G, yg, x, y, doms, models_star, case):
 def explore_graph(res: Res, g: G, ks, tier, seed, only=None):
     yg = to_y0(g)
     first, last = g.nodes[0], g.nodes[-1]
-    models_star = [("W2", SCM(g, salt=f"s{seed}"))]
-    tern = first if (len(g.di) + len(g.bi)) % 2 else last
-    models_star.append(("W3", SCM(g, card={tern: 3}, salt=f"s{seed}")))
+    models_star = []
+    if ks != "wyt":
+        models_star.append(("W2", SCM(g, salt=f"s{seed}")))
+        tern = first if (len(g.di) + len(g.bi)) % 2 else last
+        models_star.append(("W3", SCM(g, card={tern: 3}, salt=f"s{seed}")))
     specs = domain_specs(g.nodes)
     for x, y in disjoint_pairs(g.nodes):
-        if ks == "wy":
+        if ks in ("wy", "wyt"):
             groups = [[((z,), y)] for z in g.nodes if z not in y]
         elif ks == "wy2":
             groups = [[((z1,), y), ((z2,), y)] for z1, z2 in itt.permutations(x, 2)]
@@ -236,17 +252,24 @@ def explore_graph(res: Res, g: G, ks, tier, seed, only=None):
                     "Y": list(y),
                     "domains": [[list(z), list(w)] for z, w in doms],
                 }
+                if ks == "wyt":
+                    case["total_only"] = True
                 if only is not None and (case["X"], case["Y"], case["domains"]) != only:
                     continue
                 if len(res.samples) < 3 and k >= 1 and g.bi and g.di and doms[0][0]:
                     res.sample(case)
-                check_case(res, g, yg, x, y, list(doms), models_star, case)
+                check_case(res, g, yg, x, y, list(doms), models_star, case, total_only=(ks == "wyt"))
 
 
 def work(shard, tier, seed):
+    import os
+
     lo, hi = shard
     res = Res()
+    other_seed = int(os.environ.get("PYTHONHASHSEED", "0") or 0) != HASH_SEEDS[tier][0]
     for g, ks in _cases(tier)[lo:hi]:
+        if other_seed and ks != "wyt":
+            continue
         explore_graph(res, g, ks, tier, seed)
     return res
 
@@ -259,7 +282,7 @@ def replay(case, clause=None):
     explore_graph(
         res,
         g,
-        (len(case["domains"]),),
+        "wyt" if case.get("total_only") else (len(case["domains"]),),
         "thorough",
         int(os.environ.get("VERIF_SEED", "0") or 0),
         only=(case["X"], case["Y"], case["domains"]),
